@@ -165,9 +165,13 @@ class Prop(PropBase):
                 zo = lazy.dask_copy(np, z, data=np.asarray(z.data) * 2 + 1)
                 kw = {"ref_freq": ref} if ref is not None else {}
                 ls = [pb.incoherent_dedispersion(zd, DM, **kw), pb.incoherent_dedispersion(zd3, DM, **kw),
-                      pb.incoherent_dedispersion(zd, self._DM(dmv * 0.5, case), **kw), pb.incoherent_dedispersion(zo, DM, **kw)]
+                      pb.incoherent_dedispersion(zd, self._DM(dmv * 0.5, case), **kw), pb.incoherent_dedispersion(zo, DM, **kw),
+                      # uneven chunks along the channel (and time) axes, as a lazily sliced sub-band has them
+                      pb.incoherent_dedispersion(lazy.dask_copy(np, z, uneven="freq"), DM, **kw),
+                      pb.incoherent_dedispersion(lazy.dask_copy(np, z, uneven="all"), DM, **kw)]
                 ok, alone = lazy.joint_equal(np, [l.data for l in ls])
                 out["lazy_ok"] = bool(ok and np.array_equal(alone[0], np.asarray(y.data)) and np.array_equal(alone[1], np.asarray(y.data))
+                                      and np.array_equal(alone[4], np.asarray(y.data)) and np.array_equal(alone[5], np.asarray(y.data))
                                       and all(type(l.data).__module__.startswith("dask") for l in ls))
             except Exception as e:  # noqa
                 out["lazy_err"] = err_name(e)
